@@ -69,6 +69,13 @@ fn main() {
             }
             std::process::exit(engine::replay_file(&checks, &args[1]));
         }
+        "exec-child" => {
+            // one scenario from stdin, its report to stdout (C18: histories that run in a process
+            // whose standard error cannot be written)
+            let id = args.get(1).cloned().unwrap_or_default();
+            let c = checks.iter().find(|c| c.id() == id).unwrap_or_else(|| usage());
+            std::process::exit(c18::child_main(*c));
+        }
         "determinism" => {
             // prints one line per scenario: index, trace hash — diffed by selftest scripts
             let id = args.get(1).cloned().unwrap_or_default();
